@@ -59,4 +59,66 @@ cfn("cdiffraction.c:compute_geometry",
     ensures=T("C01", "forall(0, n, lambda q: And_(*[out[q][c] == GEO(q, c) for c in range(6)]))"),
     props=["C01", "C02", "C20"])
 
-cfn("cdiffraction.c:quickorient", lens={"UBI": 9, "BT": 9}, assigns=["UBI"], props=["C05", "C20"])
+# quickorient (C05): the Busing-Levy core. g1, g2 = the two observed g-vectors on entry, c = g1 x g2. The result is the one matrix that
+# sends g1 -> BT.(|g1|, 0, 0), c -> BT.(0, 0, |c|) and g2 -> BT.(g1.g2/|g1|, -|c|/|g1|, 0); since (g1, g2, c) is a basis this fixes all nine
+# entries. With BT = BTmat(h1, h2) (unitcell.py) these are the Cartesian coordinates of h1, h1 x h2, h2 in the crystal frame of B, which is
+# what makes the result the inverse of U.B. Stated from the property, not from the code: the normalisations and the sign of the middle row
+# are consequences.
+_G1 = ["old.UBI[0]", "old.UBI[1]", "old.UBI[2]"]
+_G2 = ["old.UBI[3]", "old.UBI[4]", "old.UBI[5]"]
+_CX = ["(old.UBI[1]*old.UBI[5] - old.UBI[2]*old.UBI[4])", "(old.UBI[2]*old.UBI[3] - old.UBI[0]*old.UBI[5])",
+       "(old.UBI[0]*old.UBI[4] - old.UBI[1]*old.UBI[3])"]
+_dot = lambda a, b: "(" + " + ".join("%s*%s" % (x, y) for x, y in zip(a, b)) + ")"
+_N1, _NC = "sqrt(%s)" % _dot(_G1, _G1), "sqrt(%s)" % _dot(_CX, _CX)
+_ROW = lambda r: ["UBI[%d]" % (3 * r + c) for c in range(3)]
+QO_POST = []
+for _r in range(3):
+    QO_POST += ["%s == BT[%d]*%s" % (_dot(_ROW(_r), _G1), 3 * _r, _N1),
+                "%s == BT[%d]*%s" % (_dot(_ROW(_r), _CX), 3 * _r + 2, _NC),
+                "%s*%s == BT[%d]*%s - BT[%d]*%s" % (_dot(_ROW(_r), _G2), _N1, 3 * _r, _dot(_G1, _G2), 3 * _r + 1, _NC)]
+# proof steps placed before the first store to UBI (UBI still holds g1, g2 there): the triad M in terms of g1, g2, c
+_g1, _g2, _cx = [x.replace("old.", "") for x in _G1], [x.replace("old.", "") for x in _G2], [x.replace("old.", "") for x in _CX]
+_M = lambda r: ["M[%d]" % (3 * r + c) for c in range(3)]
+_g1xc = ["(%s*%s - %s*%s)" % (_g1[1], _cx[2], _g1[2], _cx[1]), "(%s*%s - %s*%s)" % (_g1[2], _cx[0], _g1[0], _cx[2]),
+         "(%s*%s - %s*%s)" % (_g1[0], _cx[1], _g1[1], _cx[0])]
+QO_STEPS = (["t0 > 0", "t1 > 0", "t0*t0 == %s" % _dot(_g1, _g1), "t1*t1 == %s" % _dot(_cx, _cx)]
+            + ["M[%d]*t0 == %s" % (c, _g1[c]) for c in range(3)] + ["M[%d]*t1 == %s" % (6 + c, _cx[c]) for c in range(3)]
+            + ["M[3]*(t0*t1) == (M[1]*t0)*(M[8]*t1) - (M[2]*t0)*(M[7]*t1)", "M[4]*(t0*t1) == (M[2]*t0)*(M[6]*t1) - (M[0]*t0)*(M[8]*t1)",
+               "M[5]*(t0*t1) == (M[0]*t0)*(M[7]*t1) - (M[1]*t0)*(M[6]*t1)"]
+            + ["(M[%d]*t0)*(M[%d]*t1) == %s*%s" % (a, 6 + b, _g1[a], _cx[b]) for a in range(3) for b in range(3) if a != b]
+            + ["(M[1]*t0)*(M[8]*t1) - (M[2]*t0)*(M[7]*t1) == %s" % _g1xc[0], "(M[2]*t0)*(M[6]*t1) - (M[0]*t0)*(M[8]*t1) == %s" % _g1xc[1],
+               "(M[0]*t0)*(M[7]*t1) - (M[1]*t0)*(M[6]*t1) == %s" % _g1xc[2]]
+            + ["M[%d]*(t0*t1) == %s" % (3 + c, _g1xc[c]) for c in range(3)]
+            + ["%s == -%s" % (_dot(_g1xc, _g2), _dot(_cx, _cx)), "%s == -(t1*t1)" % _dot(_g1xc, _g2)]
+            + ["%s == t0*t0" % _dot(["(M[%d]*t0)" % c for c in range(3)], _g1),
+               "%s == t1*t1" % _dot(["(M[%d]*t1)" % (6 + c) for c in range(3)], _cx),
+               "%s == %s" % (_dot(["(M[%d]*t0)" % c for c in range(3)], _g2), _dot(_g1, _g2)),
+               "%s == -(t1*t1)" % _dot(["(M[%d]*(t0*t1))" % (3 + c) for c in range(3)], _g2)]
+            + ["%s*t0 == 0" % _dot(_M(0), _cx), "%s == 0" % _dot(_M(0), _cx),
+               "%s*t1 == t1*t1" % _dot(_M(2), _cx), "%s == t1" % _dot(_M(2), _cx),
+               "%s*(t0*t1) == 0" % _dot(_M(1), _cx), "%s == 0" % _dot(_M(1), _cx),
+               "%s*t0 == %s" % (_dot(_M(0), _g2), _dot(_g1, _g2)),
+               "%s*t1 == 0" % _dot(_M(2), _g2), "%s == 0" % _dot(_M(2), _g2),
+               "%s*(t0*t1) == -(t1*t1)" % _dot(_M(1), _g2), "%s*t0 == -t1" % _dot(_M(1), _g2),
+               "%s*t0 == t0*t0" % _dot(_M(0), _g1), "%s == t0" % _dot(_M(0), _g1),
+               "%s == 0" % _dot(_M(2), _g1), "%s == 0" % _dot(_M(1), _g1)]
+            + ["%s*t0 == 0" % _dot(_M(2), _g2)]
+            + [x for r in range(3) for x in ("BT[%d]*(%s*t0) == BT[%d]*%s" % (3 * r, _dot(_M(0), _g2), 3 * r, _dot(_g1, _g2)),
+                                             "BT[%d]*(%s*t0) == -(BT[%d]*t1)" % (3 * r + 1, _dot(_M(1), _g2), 3 * r + 1),
+                                             "BT[%d]*(%s*t0) == 0" % (3 * r + 2, _dot(_M(2), _g2)))]
+            + ["BT[%d]*(%s*t0) + BT[%d]*(%s*t0) + BT[%d]*(%s*t0) == BT[%d]*%s - BT[%d]*t1"
+               % (3 * r, _dot(_M(0), _g2), 3 * r + 1, _dot(_M(1), _g2), 3 * r + 2, _dot(_M(2), _g2), 3 * r, _dot(_g1, _g2), 3 * r + 1)
+               for r in range(3)]
+            + ["(BT[%d]*%s + BT[%d]*%s + BT[%d]*%s)*t0 == BT[%d]*(%s*t0) + BT[%d]*(%s*t0) + BT[%d]*(%s*t0)"
+               % (3 * r, _dot(_M(0), _g2), 3 * r + 1, _dot(_M(1), _g2), 3 * r + 2, _dot(_M(2), _g2),
+                  3 * r, _dot(_M(0), _g2), 3 * r + 1, _dot(_M(1), _g2), 3 * r + 2, _dot(_M(2), _g2)) for r in range(3)]
+            + ["(BT[%d]*%s + BT[%d]*%s + BT[%d]*%s)*t0 == BT[%d]*%s - BT[%d]*t1"
+               % (3 * r, _dot(_M(0), _g2), 3 * r + 1, _dot(_M(1), _g2), 3 * r + 2, _dot(_M(2), _g2), 3 * r, _dot(_g1, _g2), 3 * r + 1)
+               for r in range(3)]
+            + ["%s*t0 == BT[%d]*%s - BT[%d]*t1"
+               % (_dot(["(BT[%d]*M[%d] + BT[%d]*M[%d] + BT[%d]*M[%d])" % (3 * r, c, 3 * r + 1, 3 + c, 3 * r + 2, 6 + c) for c in range(3)], _g2),
+                  3 * r, _dot(_g1, _g2), 3 * r + 1) for r in range(3)])
+cfn("cdiffraction.c:quickorient", lens={"UBI": 9, "BT": 9}, assigns=["UBI"],
+    asserts={"before:UBI[0]=BT[0]*M[0]+BT[1]*M[3]+BT[2]*M[6]": T("C05", *QO_STEPS)},
+    requires=T("C05", "%s > 0" % _dot(_G1, _G1).replace("old.", ""), "%s > 0" % _dot(_CX, _CX).replace("old.", "")),
+    ensures=T("C05", *QO_POST), props=["C05", "C20"])
